@@ -310,6 +310,8 @@ class Model:
 
         inst.data = comp_data(cd["name"], kw, inj, cd["injects"], cd.get("echo_id"), ("ID", inst.idx),
                               cd.get("label"), cd.get("extra_data"))
+        if cd.get("tmpl_via") == "get_template":
+            self.event("gt:" + cd["name"], inst)  # the user's get_template() runs right after get_context_data()
 
     # ------------------------------------------------------------------ fills
     def discover(self, bk, body, env, owner, prov, ck, only=False):
